@@ -5,6 +5,8 @@ import s_wire
 import s_init
 import s_framing
 import s_sender
+import s_conc
+import s_dispatch
 
 KERNEL = "Lean 4.33.0 kernel; axioms limited to propext, Classical.choice, Quot.sound (audited with #print axioms on every run)"
 HARNESS = "the correspondence harness (generators, canonicalisation) in /verif/harness"
@@ -119,5 +121,38 @@ PROPS = {
         "rule": "streams of 1-6 request lines with mixed CRLF / LF terminators: exhaustively every placement of up to 2 (thorough: 3) cut "
                 "points, byte-at-a-time, with unterminated remainders (incl. a cut between CR and LF), random many-cut segmentations; the "
                 "real _RequestManager._do_run is run in-process on a scripted socket; non-trivial = distinct segmentation",
+    },
+    "C13": {
+        "lean": ["AriVerif.Props.C13"],
+        "gen": ["KeepAlive"],
+        "streams": [s_sender.stream],
+        "trusted": [KERNEL, HARNESS, "the scheduler shim (harness/shim.py): its semantics for Lock/RLock, Queue (FIFO, unbounded), Event, Thread, ThreadPoolExecutor (FIFO work queue, <= n running, shutdown waits), socket (recv returns a non-empty prefix, b'' at EOF; sendall all-or-exception), virtual clock; the real code runs unmodified, module attributes are patched from the harness",
+                    "real timers and scheduling latency are not modelled: bounds are exact in virtual time only"],
+        "assumptions": ["an interval change takes effect at the writer's next wait (as at init, where the init reply is enqueued at the same instant)",
+                        "a submission at exactly the instant a wait expires may be served either way (both tie policies are co-simulated)"],
+        "rule": "timed histories: K in {off, 250, 1000, 2500, 10000} ms, 0-12 events with gaps {0, 1, K-1, K, K+1, 2K, 3K+7, random}, interval "
+                "changes followed by a message at the same instant, explicit pills, stop, idle horizons up to 25 s; both tie policies; "
+                "non-trivial = history in which at least one KEEPALIVE and one message are written (distinct histories)",
+    },
+    "C14": {
+        "lean": ["AriVerif.Props.C14"],
+        "gen": [],
+        "streams": [s_conc.data_stream(["C14"], "data-cosim-startup"), s_wire.stream_writers],
+        "trusted": [KERNEL, HARNESS, "the scheduler shim (harness/shim.py): its semantics for Lock/RLock, Queue (FIFO, unbounded), Event, Thread, ThreadPoolExecutor (FIFO work queue, <= n running, shutdown waits), socket (recv returns a non-empty prefix, b'' at EOF; sendall all-or-exception), virtual clock; the real code runs unmodified, module attributes are patched from the harness",
+                    "Startup.lean abstracts every reader-side producer as an `.enqueue` guarded by 'reader started'; that the real "
+                    "start() follows the modelled order is what the M/W/R start-up chunks of the co-simulation compare"],
+        "assumptions": ["Metadata servers share Server.start with Data servers (same code path; the Metadata co-simulation of C04 also checks the first line)"],
+        "rule": "Data-server scenarios with user/password each None, empty or a C05 string, request bytes delivered before start() in ~30% of "
+                "the runs, random schedules of the starting thread against writer, reader and proxy; non-trivial = scenario with pipelined requests",
+    },
+    "C16": {
+        "lean": ["AriVerif.Props.C16"],
+        "gen": [],
+        "streams": [s_conc.data_stream(["C16"], "data-cosim-outbound"), s_sender.stream],
+        "trusted": [KERNEL, HARNESS, "the scheduler shim (harness/shim.py): its semantics for Lock/RLock, Queue (FIFO, unbounded), Event, Thread, ThreadPoolExecutor (FIFO work queue, <= n running, shutdown waits), socket (recv returns a non-empty prefix, b'' at EOF; sendall all-or-exception), virtual clock; the real code runs unmodified, module attributes are patched from the harness",
+                    "contiguity of one sendall on a real socket is the OS's; queue.Queue being FIFO is CPython's"],
+        "assumptions": ["messages are written by the single writer thread only"],
+        "rule": "Data-server scenarios with 0-2 adapter-owned threads and events submitted from inside subscribe/unsubscribe, all schedules "
+                "sampled; written lines compared with the enqueue order; non-trivial = scenario with pipelined requests",
     },
 }
